@@ -1,7 +1,7 @@
 #!/bin/sh
 # re-run every seeded change against the checks recorded in its meta.json (plus its own property); prints a table
 cd /verif
-for d in seeded/*/; do
+for d in $(ls -d seeded/*/ | grep -v "/_"); do
   id=$(basename $d)
   props=$(python3 -c "import json; m=json.load(open('$d/meta.json')); print(' '.join(sorted(set(m['detected_by']+[m['property']]))))")
   r=$(tools/evalmut.sh /verif/$d/patch.diff $props 2>&1 | tail -1)
